@@ -128,12 +128,13 @@ Qed.
 Definition skel (e : entry) : gene := with_value (e_gene e) VNone.
 
 Definition same_meta (G G' : genome) : Prop :=
-  allow G' = allow G /\ cb G' = cb G /\ generation G' = generation G /\ parent G' = parent G.
+  allow G' = allow G /\ cb G' = cb G /\ generation G' = generation G /\ parent G' = parent G /\
+  mrate G' = mrate G.
 
 Lemma same_meta_refl : forall G, same_meta G G.
 Proof. intros; repeat split. Qed.
 Lemma same_meta_trans : forall A B C, same_meta A B -> same_meta B C -> same_meta A C.
-Proof. unfold same_meta; intros A B C (a&b&c&d) (e&f&g&h); repeat split; congruence. Qed.
+Proof. unfold same_meta; intros A B C (a&b&c&d&d') (e&f&g&h&h'); repeat split; congruence. Qed.
 
 Lemma stored_lookup : forall G n v,
   stored G n = Some v <-> exists e, lookup (tbl G) n = Some e /\ value e = v.
@@ -689,11 +690,11 @@ Proof.
   - apply Nat.eqb_neq in E. apply IH. now apply step_other.
 Qed.
 
-Lemma step_replicate : forall W i G muts inh,
+Lemma step_replicate : forall W i G muts inh ds,
   nth_error W i = Some G ->
-  step W (i, OReplicate muts inh) = (W ++ [g_replicate G muts inh], RetChild (length W)).
+  step W (i, OReplicate muts inh ds) = (W ++ [g_replicate_full G muts inh ds], RetChild (length W)).
 Proof.
-  intros W i G muts inh H. unfold step. rewrite H. cbn [g_step fst born].
+  intros W i G muts inh ds H. unfold step. rewrite H. cbn [g_step fst born].
   now rewrite set_nth_id.
 Qed.
 
@@ -989,14 +990,15 @@ Qed.
 Lemma child_base_facts : forall G, wf G ->
   tbl (child_base G) = map (fun e => fresh_entry (e_gene e)) (tbl G) /\
   mlog (child_base G) = [] /\ allow (child_base G) = allow G /\ cb (child_base G) = cb G /\
-  generation (child_base G) = generation G + 1 /\ parent (child_base G) = Some (ghash G).
+  generation (child_base G) = generation G + 1 /\ parent (child_base G) = Some (ghash G) /\
+  mrate (child_base G) = mrate G.
 Proof.
-  intros G W. unfold child_base, init_genome.
-  destruct (init_fold (map e_gene (tbl G)) (empty_genome (allow G) (cb G))) as (T & L & M).
+  intros G W. unfold child_base, init_genome_r.
+  destruct (init_fold (map e_gene (tbl G)) (empty_genome_r (allow G) (cb G) (mrate G))) as (T & L & M).
   - rewrite map_map. exact W.
   - intros; reflexivity.
-  - cbn [tbl mlog allow cb generation parent]. cbn [empty_genome tbl app] in T.
-    rewrite T, L, map_map. destruct M as (Ma & Mc & _). rewrite Ma, Mc.
+  - cbn [tbl mlog allow cb generation parent mrate]. cbn [empty_genome_r tbl app] in T.
+    rewrite T, L, map_map. destruct M as (Ma & Mc & _ & _ & Mr). rewrite Ma, Mc, Mr.
     repeat split.
 Qed.
 
@@ -1042,13 +1044,14 @@ Proof. reflexivity. Qed.
 Lemma pre_muts_facts : forall G inh, wf G ->
   map e_gene (tbl (pre_muts G inh)) = map e_gene (tbl G) /\
   mlog (pre_muts G inh) = [] /\ allow (pre_muts G inh) = allow G /\ cb (pre_muts G inh) = cb G /\
-  generation (pre_muts G inh) = generation G + 1 /\ parent (pre_muts G inh) = Some (ghash G).
+  generation (pre_muts G inh) = generation G + 1 /\ parent (pre_muts G inh) = Some (ghash G) /\
+  mrate (pre_muts G inh) = mrate G.
 Proof.
-  intros G inh W. destruct (child_base_facts G W) as (T & L & A & C & Ge & P).
+  intros G inh W. destruct (child_base_facts G W) as (T & L & A & C & Ge & P & R).
   assert (Tg : map e_gene (tbl (child_base G)) = map e_gene (tbl G)).
   { rewrite T, map_map. cbn [fresh_entry e_gene]. apply map_ext. reflexivity. }
   unfold pre_muts. destruct inh; [|repeat split; assumption].
-  destruct (inherit_facts (tbl G) (child_base G)) as (Hg & Hl & (Ma & Mc & Mg & Mp)).
+  destruct (inherit_facts (tbl G) (child_base G)) as (Hg & Hl & (Ma & Mc & Mg & Mp & Mr)).
   repeat split; congruence.
 Qed.
 
@@ -1135,8 +1138,8 @@ Lemma child_facts_proof : forall G muts inh, wf G ->
   map skel (tbl c) = map skel (tbl G).
 Proof.
   intros G muts inh W c. subst c. rewrite replicate_unfold.
-  destruct (pre_muts_facts G inh W) as (Tg & L & A & C & Ge & P).
-  destruct (muts_frame muts (pre_muts G inh)) as [(Ma & Mc & Mg & Mp) _ _ Wf].
+  destruct (pre_muts_facts G inh W) as (Tg & L & A & C & Ge & P & R).
+  destruct (muts_frame muts (pre_muts G inh)) as [(Ma & Mc & Mg & Mp & Mr) _ _ Wf].
   destruct (muts_skel muts (pre_muts G inh)) as (Sk & _).
   assert (Wp : wf (pre_muts G inh)).
   { unfold wf in *. replace (map key (tbl (pre_muts G inh))) with (map key (tbl G)); [assumption|].
@@ -1249,14 +1252,210 @@ Proof.
 Qed.
 
 (* ====================================================================== *)
+(* 9b. random mutations during replication (mutation_rate > 0)             *)
+
+(* a list of proposed changes, each handed to mutate with reason r *)
+Definition apply_muts_r (r : reason) (C : genome) (props : list (Z * val)) : genome :=
+  fold_left (fun C nv => fst (g_mutate C (fst nv) (snd nv) r)) props C.
+Definition apply_random : genome -> list (Z * val) -> genome := apply_muts_r RRandom.
+
+Lemma apply_r_cons : forall r C n v props,
+  apply_muts_r r C ((n, v) :: props) = apply_muts_r r (fst (g_mutate C n v r)) props.
+Proof. reflexivity. Qed.
+
+Lemma apply_r_app : forall r C p1 p2,
+  apply_muts_r r C (p1 ++ p2) = apply_muts_r r (apply_muts_r r C p1) p2.
+Proof. intros. unfold apply_muts_r. apply fold_left_app. Qed.
+
+(* the loop is a sequence of calls of mutate with reason "random_mutation":
+   there is no other way in which it touches the child *)
+Lemma random_muts_props : forall names C rate ds,
+  exists props, random_muts C rate names ds = apply_random C props.
+Proof.
+  induction names as [|a names IH]; intros C rate ds; cbn [random_muts].
+  - exists []. reflexivity.
+  - destruct (draw ds) as [u ds1]. destruct (u <? rate); [|apply IH].
+    destruct (stored C a) as [v|]; [|apply IH].
+    destruct (is_numeric v); [|apply IH].
+    destruct (draw ds1) as [k ds2]. destruct (perturb v k) as [w|]; [|apply IH].
+    destruct (IH (fst (g_mutate C a w RRandom)) rate ds2) as (props & E).
+    exists ((a, w) :: props). unfold apply_random. rewrite apply_r_cons. exact E.
+Qed.
+
+Lemma replicate_full_props : forall G muts inh ds,
+  exists props, g_replicate_full G muts inh ds = apply_random (g_replicate G muts inh) props /\
+                (mrate G <= 0 -> props = []).
+Proof.
+  intros G muts inh ds. unfold g_replicate_full. destruct (0 <? mrate G) eqn:E.
+  - destruct (random_muts_props (map key (tbl (g_replicate G muts inh))) (g_replicate G muts inh) (mrate G) ds)
+      as (props & Ep).
+    exists props. split; [exact Ep|]. intros H. apply Z.ltb_lt in E. lia.
+  - exists []. split; reflexivity.
+Qed.
+
+Lemma r_chain : forall r props C, allow C = false -> exists l, chainrel C (apply_muts_r r C props) l.
+Proof.
+  induction props as [|[n v] props IH]; intros C Hal.
+  - exists []. apply chainrel_refl.
+  - rewrite apply_r_cons.
+    destruct (mutate_chain C n v r Hal) as (l1 & C1).
+    assert (Hal1 : allow (fst (g_mutate C n v r)) = false).
+    { destruct (cr_meta _ _ _ C1) as (E & _). congruence. }
+    destruct (IH _ Hal1) as (l2 & C2).
+    exists (l1 ++ l2). eapply chainrel_trans; eauto.
+Qed.
+
+Lemma r_frame : forall r props C, frame C (apply_muts_r r C props).
+Proof.
+  induction props as [|[n v] props IH]; intros C; [apply frame_refl|].
+  rewrite apply_r_cons. eapply frame_trans; [apply (mutate_frame C n v r) | apply IH].
+Qed.
+
+Lemma r_skel : forall r props C,
+  map skel (tbl (apply_muts_r r C props)) = map skel (tbl C) /\
+  map e_level (tbl (apply_muts_r r C props)) = map e_level (tbl C).
+Proof.
+  induction props as [|[n v] props IH]; intros C; [auto|].
+  rewrite apply_r_cons.
+  destruct (IH (fst (g_mutate C n v r))) as (A & B).
+  destruct (mutate_skel C n v r) as (A' & B'). split; congruence.
+Qed.
+
+(* a random mutation that changed a value passed the gate and is logged *)
+Definition random_entry (a : bool) (c : option oracle) (n : Z) (m : mrec) : Prop :=
+  m_gene m = n /\ m_approved m = true /\ m_reason m = RRandom /\ gate a c m = true.
+
+Lemma r_changed : forall r props C n,
+  exists l, mlog (apply_muts_r r C props) = mlog C ++ l /\
+    (stored (apply_muts_r r C props) n <> stored C n ->
+     exists m, In m l /\ m_gene m = n /\ m_approved m = true /\ m_reason m = r /\
+               In (n, m_new m) props /\ gate (allow C) (cb C) m = true).
+Proof.
+  induction props as [|[n' v'] props IH]; intros C n.
+  - exists []. split; [now rewrite app_nil_r|]. intros H. now contradiction H.
+  - rewrite apply_r_cons.
+    destruct (IH (fst (g_mutate C n' v' r)) n) as (l2 & L2 & H2).
+    destruct (mutate_cases C n' v' r)
+      as [(S & E)|[(old & S & A & E)|(e & L & A & E)]]; rewrite E in *; cbn [fst] in *.
+    + exists l2. split; [assumption|]. intros H.
+      destruct (H2 H) as (m & I & a & b & c & d & g). exists m. repeat split; auto. now right.
+    + exists (mkM n' old v' r false :: l2). split.
+      * rewrite L2. cbn [add_log mlog]. now rewrite <- app_assoc.
+      * intros H. destruct (H2 H) as (m & I & a & b & c & d & g). exists m.
+        split; [now right|]. repeat split; auto. now right.
+    + destruct (applied_facts C n' v' r e L) as ((Ma & Mc & _) & Lg & Sn & So & _).
+      exists (mkM n' (value e) v' r true :: l2). split.
+      * rewrite L2, Lg. now rewrite <- app_assoc.
+      * intros H.
+        destruct (optZ_dec (stored (apply_muts_r r (applied C n' v' r e) props) n)
+                           (stored (applied C n' v' r e) n)) as [Eq|Ne].
+        -- assert (n = n').
+           { destruct (Z.eq_dec n n') as [|Hn]; [assumption|]. exfalso. apply H.
+             rewrite Eq. now apply So. }
+           subst n'. exists (mkM n (value e) v' r true). split; [now left|].
+           repeat split; cbn; auto.
+        -- destruct (H2 Ne) as (m & I & a & b & c & d & g). exists m. split; [now right|].
+           rewrite Ma, Mc in g. repeat split; auto. now right.
+Qed.
+
+(* a refused proposal is logged as unapproved, whatever the reason *)
+Lemma r_refused_logged : forall r C pre n v post old,
+  let C1 := apply_muts_r r C pre in
+  stored C1 n = Some old -> approved_by C1 n old v r = false ->
+  let c := apply_muts_r r C (pre ++ (n, v) :: post) in
+  In (mkM n old v r false) (mlog c) /\
+  exists l, mlog c = mlog C1 ++ mkM n old v r false :: l.
+Proof.
+  intros r C pre n v post old C1 S A c. subst c.
+  rewrite apply_r_app, apply_r_cons. fold C1.
+  destruct (mutate_cases C1 n v r) as [(S' & E)|[(old' & S' & A' & E)|(e & L & A' & E)]].
+  - congruence.
+  - assert (old' = old) by congruence. subst old'. rewrite E. cbn [fst].
+    destruct (fr_log _ _ (r_frame r post (add_log C1 (mkM n old v r false)))) as (l & Hl).
+    cbn [add_log mlog] in Hl. rewrite <- app_assoc in Hl. cbn [app] in Hl.
+    split; [|eauto]. rewrite Hl. apply in_app_iff. right. now left.
+  - assert (value e = old).
+    { apply stored_lookup in S. destruct S as (e' & L' & <-). congruence. }
+    congruence.
+Qed.
+
+(* ---- the complete child: specified mutations, then random ones ---- *)
+
+Definition authorised_entry_full (a : bool) (c : option oracle) (muts : list (Z * val)) (n : Z) (m : mrec) : Prop :=
+  m_gene m = n /\ m_approved m = true /\ gate a c m = true /\
+  ((m_reason m = RReplication /\ In (n, m_new m) muts) \/ m_reason m = RRandom).
+
+Lemma child_full_facts_proof : forall G muts inh ds, wf G ->
+  let c := g_replicate_full G muts inh ds in
+  allow c = allow G /\ cb c = cb G /\ generation c = generation G + 1 /\
+  parent c = Some (ghash G) /\ mrate c = mrate G /\ wf c /\
+  map skel (tbl c) = map skel (tbl G) /\
+  exists l, mlog c = mlog (g_replicate G muts inh) ++ l.
+Proof.
+  intros G muts inh ds W c. subst c.
+  destruct (replicate_full_props G muts inh ds) as (props & -> & _).
+  destruct (child_facts_proof G muts inh W) as (A & C & Ge & P & Wc & Sk).
+  assert (R : mrate (g_replicate G muts inh) = mrate G).
+  { rewrite replicate_unfold.
+    destruct (pre_muts_facts G inh W) as (_ & _ & _ & _ & _ & _ & R0).
+    destruct (muts_frame muts (pre_muts G inh)) as [(_ & _ & _ & _ & Mr) _ _ _]. congruence. }
+  unfold apply_random.
+  destruct (r_frame RRandom props (g_replicate G muts inh)) as [(Ma & Mc & Mg & Mp & Mr) Lg _ Wf].
+  destruct (r_skel RRandom props (g_replicate G muts inh)) as (Sk' & _).
+  repeat split; try congruence; auto.
+Qed.
+
+Lemma child_full_differs_proof : forall G muts inh ds n, wf G ->
+  let c := g_replicate_full G muts inh ds in
+  stored c n <> stored G n ->
+  exists m, In m (mlog c) /\ authorised_entry_full (allow G) (cb G) muts n m.
+Proof.
+  intros G muts inh ds n W c H. subst c.
+  destruct (replicate_full_props G muts inh ds) as (props & E & _). rewrite E in *. clear E.
+  destruct (child_facts_proof G muts inh W) as (A & C & _).
+  unfold apply_random in *.
+  destruct (r_changed RRandom props (g_replicate G muts inh) n) as (l & Lg & Hc).
+  rewrite Lg.
+  destruct (optZ_dec (stored (apply_muts_r RRandom (g_replicate G muts inh) props) n)
+                     (stored (g_replicate G muts inh) n)) as [Eq|Ne].
+  - rewrite Eq in H. destruct (child_differs_proof G muts inh n W H) as (m & I & a & b & c & d & g).
+    exists m. split; [apply in_app_iff; now left|]. repeat split; auto.
+  - destruct (Hc Ne) as (m & I & a & b & c & d & g). rewrite A, C in g.
+    exists m. split; [apply in_app_iff; now right|]. repeat split; auto.
+Qed.
+
+Lemma child_full_replay_proof : forall G muts inh ds, wf G -> allow G = false ->
+  let c := g_replicate_full G muts inh ds in
+  Forall (entry_ok (cb G)) (mlog c) /\
+  forall n v, stored G n = Some v ->
+    stored c n = Some (replay (mlog c) n v) /\ origs n v (mlog c).
+Proof.
+  intros G muts inh ds W Hal c. subst c.
+  destruct (replicate_full_props G muts inh ds) as (props & -> & _).
+  destruct (child_facts_proof G muts inh W) as (A & C & _).
+  destruct (child_replay_proof G muts inh W Hal) as (Ok1 & V1).
+  unfold apply_random.
+  destruct (r_chain RRandom props (g_replicate G muts inh)) as (l & [_ Lg Ok Val]); [congruence|].
+  rewrite Lg. rewrite C in Ok. split; [apply Forall_app; auto|].
+  intros n v S. destruct (V1 n v S) as (S1 & O1). destruct (Val n _ S1) as (S2 & O2).
+  rewrite replay_app. split; [assumption|]. apply origs_app. auto.
+Qed.
+
+Lemma replicate_full_wf : forall G muts inh ds, wf G -> wf (g_replicate_full G muts inh ds).
+Proof.
+  intros G muts inh ds W.
+  now destruct (child_full_facts_proof G muts inh ds W) as (_ & _ & _ & _ & _ & Wc & _).
+Qed.
+
+(* ====================================================================== *)
 (* 10. well-formedness (the table is a dict) is invariant                   *)
 
-Lemma empty_wf : forall a c, wf (empty_genome a c).
+Lemma empty_wf : forall a c rate, wf (empty_genome_r a c rate).
 Proof. intros. unfold wf. cbn. constructor. Qed.
 
-Lemma init_wf : forall a c genes, wf (init_genome a c genes).
+Lemma init_wf : forall a c rate genes, wf (init_genome_r a c rate genes).
 Proof.
-  intros a c genes. unfold init_genome.
+  intros a c rate genes. unfold init_genome_r.
   assert (H : forall G0, wf G0 -> wf (fold_left (fun G g => fst (g_add G g)) genes G0)).
   { induction genes as [|g genes IH]; intros G0 W0; [exact W0|].
     cbn [fold_left]. apply IH. now apply (fr_wf _ _ (add_frame G0 g)). }
@@ -1280,7 +1479,7 @@ Proof.
     assert (WG : wf G) by (eapply Forall_forall; [exact H | eapply nth_error_In; eauto]).
     apply Forall_app. split.
     + apply Forall_set_nth; [assumption|]. now apply (fr_wf _ _ (step_frame G o)).
-    + destruct o; cbn [born]; try constructor; [now apply replicate_wf | constructor].
+    + destruct o; cbn [born]; try constructor; [now apply replicate_full_wf | constructor].
   - now rewrite step_bad.
 Qed.
 
@@ -1373,12 +1572,12 @@ Proof.
   exists (g_run G (ops_for i ops)), l. split; [now apply run_proj | assumption].
 Qed.
 
-Lemma replicate_preserves_proof : forall W i G muts inh W' r,
-  nth_error W i = Some G -> step W (i, OReplicate muts inh) = (W', r) ->
-  W' = W ++ [g_replicate G muts inh] /\ r = RetChild (length W) /\
+Lemma replicate_preserves_proof : forall W i G muts inh ds W' r,
+  nth_error W i = Some G -> step W (i, OReplicate muts inh ds) = (W', r) ->
+  W' = W ++ [g_replicate_full G muts inh ds] /\ r = RetChild (length W) /\
   forall j Gj, nth_error W j = Some Gj -> nth_error W' j = Some Gj.
 Proof.
-  intros W i G muts inh W' r H St. rewrite (step_replicate W i G muts inh H) in St.
+  intros W i G muts inh ds W' r H St. rewrite (step_replicate W i G muts inh ds H) in St.
   inversion St; subst. repeat split. intros j Gj Hj.
   rewrite nth_error_app1; [assumption|]. apply nth_error_Some. congruence.
 Qed.
@@ -1389,7 +1588,7 @@ Proof. intros W ops i G H E. rewrite (run_proj ops W i G H), E. reflexivity. Qed
 
 Lemma step_bool : forall W i G o,
   nth_error W i = Some G ->
-  (forall muts inh, o <> OReplicate muts inh) -> (forall ctx, o <> OExpress ctx) ->
+  (forall muts inh ds, o <> OReplicate muts inh ds) -> (forall ctx, o <> OExpress ctx) ->
   step W (i, o) = (set_nth W i (fst (g_step G o)), RetBool (snd (g_step G o))).
 Proof.
   intros W i G o H Hr He. unfold step. rewrite H.
@@ -1487,11 +1686,17 @@ Proof.
     + rewrite Z.eqb_sym, E. reflexivity.
 Qed.
 
-Lemma child_levels_proof : forall G muts, wf G ->
-  map e_level (tbl (g_replicate G muts true)) = map e_level (tbl G) /\
-  map e_level (tbl (g_replicate G muts false)) = map (fun e => g_default (e_gene e)) (tbl G).
+Lemma child_levels_proof : forall G muts ds, wf G ->
+  map e_level (tbl (g_replicate_full G muts true ds)) = map e_level (tbl G) /\
+  map e_level (tbl (g_replicate_full G muts false ds)) = map (fun e => g_default (e_gene e)) (tbl G).
 Proof.
-  intros G muts W. destruct (child_base_facts G W) as (T & _).
+  intros G muts ds W. destruct (child_base_facts G W) as (T & _).
+  destruct (replicate_full_props G muts true ds) as (p1 & -> & _).
+  destruct (replicate_full_props G muts false ds) as (p2 & -> & _).
+  unfold apply_random.
+  destruct (r_skel RRandom p1 (g_replicate G muts true)) as (_ & R1).
+  destruct (r_skel RRandom p2 (g_replicate G muts false)) as (_ & R2).
+  rewrite R1, R2. clear R1 R2.
   rewrite !replicate_unfold.
   destruct (muts_skel muts (pre_muts G true)) as (_ & L1).
   destruct (muts_skel muts (pre_muts G false)) as (_ & L2).
@@ -1515,9 +1720,9 @@ Proof.
   intros G ctx n v W. split; [now apply express_lookup_proof | now apply express_keys_unique].
 Qed.
 
-Lemma wf_invariant_proof : forall a c genes ops, Forall wf (run [init_genome a c genes] ops).
+Lemma wf_invariant_proof : forall a c rate genes ops, Forall wf (run [init_genome_r a c rate genes] ops).
 Proof.
-  intros a c genes ops. apply run_wf. constructor; [apply init_wf | constructor].
+  intros a c rate genes ops. apply run_wf. constructor; [apply init_wf | constructor].
 Qed.
 
 (* ====================================================================== *)
